@@ -1,0 +1,87 @@
+//go:build verif
+
+package method_evaluator
+
+import (
+	"fmt"
+	"ti/base"
+	"ti/context"
+)
+
+var verifSeq int
+
+// VerifCheckArgType exposes checkArgType (only m.method and class enter the message).
+func VerifCheckArgType(definedArgT *base.T, argT *base.T) string {
+	m := &MethodEvaluator{method: "m"}
+	err := checkArgType(m, "C", definedArgT, argT)
+	if err == nil {
+		return ""
+	}
+	return err.Error()
+}
+
+// VerifCheckArgsSpec describes one call of checkAndPropagateArgs on a fresh method.
+type VerifCheckArgsSpec struct {
+	Frame    string                  `json:"frame"` // "Builtin" for a configured method
+	DArgs    []string                `json:"dargs"` // defineArgs of the method T
+	Params   map[string]*base.VerifT `json:"params"`
+	Ret      *base.VerifT            `json:"ret"`
+	Args     [][]*base.VerifT        `json:"calls"` // one argument list per call, checked in order
+	Round    string                  `json:"round"`
+	IsStatic bool                    `json:"static"`
+}
+
+type VerifCheckArgsResult struct {
+	Errors []string                  `json:"errors"` // "" = nil error, one per call
+	Params []map[string]*base.VerifT `json:"params"` // parameter table after each call
+}
+
+// VerifCheckArgs registers a method with the given parameter table in TFrame under a fresh class,
+// runs checkAndPropagateArgs once per argument list and reports errors and the table after each.
+func VerifCheckArgs(s *VerifCheckArgsSpec) *VerifCheckArgsResult {
+	verifSeq++
+	class := fmt.Sprintf("VerifCls%d", verifSeq)
+	names := []string{}
+	for name, v := range s.Params {
+		base.SetValueT(s.Frame, class, "m", name, base.VerifFromProjection(v), s.IsStatic)
+		names = append(names, name)
+	}
+	methodT := base.MakeMethod(s.Frame, "m", *base.VerifFromProjection(s.Ret), append([]string{}, s.DArgs...))
+	methodT.DefinedFrame = s.Frame
+	methodT.DefinedClass = class
+	methodT.IsStatic = s.IsStatic
+	methodT.SetBeforeEvaluateCode(class + ".m")
+	objT := base.MakeObject(class)
+	objT.SetFrame(s.Frame)
+	ctx := context.NewContext("", "", s.Round)
+	m := &MethodEvaluator{ctx: ctx, method: "m", evaluatedObjectT: objT, objectT: objT}
+	res := &VerifCheckArgsResult{}
+	for _, call := range s.Args {
+		var argTs []*base.T
+		for _, a := range call {
+			argTs = append(argTs, base.VerifFromProjection(a))
+		}
+		err := checkAndPropagateArgs(m, class, methodT, argTs)
+		if err != nil {
+			res.Errors = append(res.Errors, err.Error())
+		} else {
+			res.Errors = append(res.Errors, "")
+		}
+		after := map[string]*base.VerifT{}
+		for _, e := range base.VerifSnapshot(false).Frame {
+			if e.Class == class && e.Method == "m" {
+				after[e.Variable] = e.T
+			}
+		}
+		res.Params = append(res.Params, after)
+	}
+	base.VerifDeleteClass(class)
+	return res
+}
+
+// VerifPrioritize exposes the two argument sorters.
+func VerifPrioritizeDefineArgNames(names []string) []string {
+	return prioritizeDefineArgNames(append([]string{}, names...))
+}
+
+func VerifPrioritizeArgTs(ts []*base.T) []*base.T { return prioritizeArgTs(ts) }
